@@ -6,24 +6,36 @@ VERIF = os.path.dirname(os.path.dirname(os.path.abspath(__file__)))
 def sh(cmd, **kw):
     return subprocess.run(cmd, shell=True, stdout=subprocess.PIPE, stderr=subprocess.STDOUT, text=True, **kw)
 seeds = sys.argv[1:] or sorted(d for d in os.listdir(os.path.join(VERIF, "seeded")) if os.path.isdir(os.path.join(VERIF, "seeded", d)))
-st = sh("git -C /repo status --porcelain --untracked-files=no").stdout.strip()
-if st:
-    print("refusing: /repo has uncommitted changes:\n" + st); sys.exit(2)
+inplace = "--inplace" in sys.argv
+seeds = [x for x in seeds if not x.startswith("--")]
+if inplace:
+    st = sh("git -C /repo status --porcelain --untracked-files=no").stdout.strip()
+    if st:
+        print("refusing: /repo has uncommitted changes:\n" + st); sys.exit(2)
 for sid in seeds:
     d = os.path.join(VERIF, "seeded", sid)
     pid = sid.split("-")[0]
     props = [pid]
-    meta = os.path.join(d, "meta.json")
-    if os.path.exists(meta):
-        props = json.load(open(meta)).get("checks", [pid])
-    r = sh("git -C /repo apply %s/patch.diff" % d)
+    env = dict(os.environ)
+    if inplace:
+        # the way a user would do it: apply to /repo, run the check, undo
+        r = sh("git -C /repo apply %s/patch.diff" % d)
+        wt = None
+    else:
+        # default: a scratch worktree outside /repo and /verif, so that other runs against /repo are not disturbed
+        wt = "/tmp/seedtest/%s-%d" % (sid, os.getpid())
+        sh("mkdir -p /tmp/seedtest; git -C /repo worktree prune; git -C /repo worktree add -q --detach %s HEAD" % wt)
+        r = sh("git -C %s apply %s/patch.diff" % (wt, d))
+        env["VERIF_REPO"] = wt
     if r.returncode != 0:
-        print(sid, "PATCH DOES NOT APPLY", r.stdout[:200]); continue
+        print(sid, "PATCH DOES NOT APPLY", r.stdout[:200])
+        if wt: sh("git -C /repo worktree remove --force %s" % wt)
+        continue
     res = {}
     try:
         for p in props:
             t0 = time.time()
-            r = sh("python3 %s/check.py %s --tier quick" % (VERIF, p))
+            r = subprocess.run("python3 %s/check.py %s --tier quick" % (VERIF, p), shell=True, stdout=subprocess.PIPE, stderr=subprocess.STDOUT, text=True, env=env)
             v = [l for l in r.stdout.splitlines() if l.startswith("VIOLATION")]
             res[p] = {"exit": r.returncode, "violations": v, "wall_s": round(time.time() - t0, 1)}
             for l in v:
@@ -32,6 +44,7 @@ for sid in seeds:
                     keep = os.path.join(d, "replay-" + os.path.basename(rp))
                     open(keep, "w").write(open(rp).read())
     finally:
-        sh("git -C /repo checkout -- .")
+        if inplace: sh("git -C /repo checkout -- .")
+        else: sh("git -C /repo worktree remove --force %s" % wt)
     json.dump(res, open(os.path.join(d, "detect.json"), "w"), indent=1)
     print(sid, {p: (x["exit"], [v.split("replay=")[1] for v in x["violations"]][:2]) for p, x in res.items()}, flush=True)
